@@ -237,6 +237,37 @@ fn search(unit: &str, depth: usize) -> Value {
                 }
             }
         }
+        // Float64 columns: values that compare equal but are not identical (0.0 / -0.0, two NaN payloads) must come back bit-exact
+        "f64col" => {
+            let skip: Vec<String> = std::env::var("VERIF_NATIVE_SKIP").ok().and_then(|s| serde_json::from_str(&s).ok()).unwrap_or_default();
+            let h32_known = skip.iter().any(|s| s == "H32");
+            let mut known: Vec<Value> = vec![];
+            let vals: [u64; 5] = [0.0f64.to_bits(), (-0.0f64).to_bits(), 1.5f64.to_bits(), 0x7ff8_0000_0000_0000, 0x7ff8_0000_0000_0001];
+            let n = depth + 2;
+            let total = (vals.len() as u32).pow(n as u32);
+            for code in 0..total {
+                let mut c = code;
+                let items: Vec<u64> = (0..n).map(|_| { let v = vals[(c % 5) as usize]; c /= 5; v }).collect();
+                for encode in 0u8..3 {
+                    tried += 1;
+                    let shown = || json!({"values_as_bits": items.iter().map(|b| format!("{b:#018x}")).collect::<Vec<_>>(), "values": items.iter().map(|b| format!("{:?}", f64::from_bits(*b))).collect::<Vec<_>>(),
+                        "encoding": (["plain", "run-length", "dictionary"][encode as usize])});
+                    match h::f64_column_roundtrip(&items, encode, 64) {
+                        Ok(out) if out == items => {}
+                        other => {
+                            // known finding H32: run-length / dictionary blocks merge values that compare equal (OrderedFloat: 0.0 == -0.0, NaN == NaN)
+                            let same_up_to_eq = matches!(&other, Ok(o) if o.len() == items.len() && o.iter().zip(&items).all(|(a, b)| { let (x, y) = (f64::from_bits(*a), f64::from_bits(*b)); x == y || (x.is_nan() && y.is_nan()) }));
+                            if h32_known && encode != 0 && same_up_to_eq {
+                                if known.len() < 5 { known.push(json!({"fragment": "H32", "statement": shown().to_string(), "observed": format!("{other:?}")})); }
+                                continue;
+                            }
+                            return json!({"found": true, "tried": tried, "input": shown(), "observed": format!("{other:?}")});
+                        }
+                    }
+                }
+            }
+            return json!({"found": false, "tried": tried, "known_failures": known});
+        }
         "varint" => {
             for v in (0u32..300).chain([0x3FFF, 0x4000, 0x1F_FFFF, 0x20_0000, 0xFFF_FFFF, 0x1000_0000, 0xEFFF_FFFF, 0xF000_0000, u32::MAX]) {
                 tried += 1;
@@ -277,7 +308,17 @@ fn main() {
                 Err(e) => json!({"session_error": e}),
             }
         }
-        _ => json!({"error": "usage: verif-replay search <unit> [depth] | kani <harness> <json>"}),
+        // verif-replay sqlm <BLOCK> <ROWSET> <json statements> <json reopen points> <json compaction points>   (no background tasks)
+        Some("sqlm") => {
+            let sqls: Vec<String> = serde_json::from_str(&a[4]).expect("json list of statements");
+            let reopen: Vec<usize> = a.get(5).map(|r| serde_json::from_str(r).expect("json list")).unwrap_or_default();
+            let compact: Vec<usize> = a.get(6).map(|r| serde_json::from_str(r).expect("json list")).unwrap_or_default();
+            match h::sql_session_manual(a[2].parse().unwrap(), a[3].parse().unwrap(), &sqls, &reopen, &compact) {
+                Ok(outs) => json!({"results": outs.iter().map(|o| match o { Ok(rows) => json!({"rows": rows}), Err(e) => json!({"error": e}) }).collect::<Vec<_>>()}),
+                Err(e) => json!({"session_error": e}),
+            }
+        }
+        _ => json!({"error": "usage: verif-replay search <unit> [depth] | kani <harness> <json> | sql <mem|disk:B:R> <json stmts> [reopen] | sqlm B R <json stmts> [reopen] [compact]"}),
     };
     println!("{out}");
 }
